@@ -66,6 +66,26 @@ class RandomModuleMixin:
         return self
 
 
+class _ParameterGetter:
+    """The closure of a prior registered by parameter name: reads that parameter from the module it is called with."""
+
+    def __init__(self, param: str):
+        self.param = param
+
+    def __call__(self, module: nn.Module) -> Tensor:
+        return getattr(module, self.param)
+
+
+class _ParameterSetter:
+    """The setting closure of a prior registered by parameter name."""
+
+    def __init__(self, param: str):
+        self.param = param
+
+    def __call__(self, module: "Module", val: Union[Tensor, float]) -> None:
+        module.initialize(**{self.param: val})
+
+
 class Module(nn.Module):
     def __init__(self):
         super().__init__()
@@ -286,18 +306,13 @@ class Module(nn.Module):
                     + " Make sure the parameter is registered before registering a prior."
                 )
 
-            def closure_new(module: nn.Module) -> Tensor:
-                return getattr(module, param)
-
-            closure = closure_new
+            # Module-level callables rather than local functions, so that modules with such priors can be pickled
+            closure = _ParameterGetter(param)
 
             if setting_closure is not None:
                 raise RuntimeError("Must specify a closure instead of a parameter name when providing setting_closure")
 
-            def setting_closure_new(module: Module, val: Union[Tensor, float]) -> None:
-                module.initialize(**{param: val})
-
-            setting_closure = setting_closure_new
+            setting_closure = _ParameterSetter(param)
 
         else:
             closure = param_or_closure
